@@ -1,6 +1,11 @@
 """Source of MANIFEST.json (python3 tools_gen_manifest.py rewrites it)."""
 
 CLAIMED = {
+    "C03": dict(
+        text="Deductive proof (Verus) of the real text of AssemblyCode::check_branches, cut from /repo on every run: on return every conditional branch is within 127 declared bytes of its nearest label; each repair leaves head and tail untouched, inserts only branches/JMP/labels, and the inserted segment takes the same exit as the removed branch(es) for every N/Z/C (all six kinds and both less-or-equal pairs).",
+        note="Assumes: branch targets defined in the same function (A-targets), resource bound re-assumed per repair iteration (A-cb-bounded; termination unproved), fresh .fixN labels differ from the branch's own label (A-fixfresh), std::fmt decimal rendering, vstd specs. Declared sizes equal encoded sizes is C04.",
+        technique="contract-based deductive verification (Verus loop invariants + lemmas on the function extracted mechanically from /repo)",
+        design="DESIGN.md section 5, C03"),
     "C04": dict(
         text="Deductive proof (Verus) over the real text of size_bytes / append_* cut from /repo on every run: the reported size is the sum of declared sizes, inline assembly defaults to 3 bytes.",
         note="vstd specs of Vec and slice iterators; declared size == encoded size is the asm() half (U-asm).",
